@@ -80,8 +80,13 @@ def run(ctx):
             uses_escape = '"export_to": "../' in json.dumps(prog["items"])
             e = next((e for e in ctx.known if e.get("match", {}).get("kind") == "escaping_export_to"), None) if uses_escape else None
             if e:
-                known_hit[e["id"]] = (e, probs[0])
-                continue
+                # only the problems this finding explains: an escaped file (`up/..`) whose import was computed against the default directory
+                related = [q for q in probs if q.startswith("up/") and "which this export did not write" in q]
+                if related:
+                    known_hit[e["id"]] = (e, related[0])
+                probs = [q for q in probs if q not in related]
+                if not probs:
+                    continue
             fails += 1
             if fails <= 5:
                 ctx.violation("an exported directory is not closed: " + "; ".join(probs[:3]),
